@@ -92,6 +92,27 @@ Interesting(r) ==
   \cup (IF r.cadd.st # "ok" \/ r.cmul.st # "ok" \/ r.csub.st # "ok" THEN {"overflow"} ELSE {})
 
 ----------------------------------------------------------------------------
+(* binding of the transcription (SIntT, model-checked in MC_SInt) to the real type: for small
+   operands the transcription must predict exactly what was observed (advisory drift) *)
+T == INSTANCE SIntT WITH MAXV <- 100000000
+Small(x) == Len(x.l) = 1
+ToT(x) == [neg |-> x.neg, v |-> x.l[1]]
+SameAs(pred, obs) ==
+  IF ~pred.ok THEN obs.st # "ok"
+  ELSE obs.st = "ok" /\ Len(obs.l) <= 2 /\ pred.val.v = (IF Len(obs.l) = 1 THEN obs.l[1] ELSE obs.l[1] + 10000 * obs.l[2])
+       /\ pred.val.neg = obs.neg
+TDrift(r) ==
+  IF ~(Small(r.a) /\ Small(r.b)) THEN {}
+  ELSE LET a == ToT(r.a)
+           b == ToT(r.b)
+       IN (IF SameAs(T!CheckedAdd(a, b), r.cadd) /\ SameAs(T!Add(a, b), r.add) THEN {} ELSE {"add"})
+          \cup (IF SameAs(T!CheckedSub(a, b), r.csub) /\ SameAs(T!Sub(a, b), r.sub) THEN {} ELSE {"sub"})
+          \cup (IF SameAs(T!CheckedMul(a, b), r.cmul) /\ SameAs(T!Mul(a, b), r.mul) THEN {} ELSE {"mul"})
+          \cup (IF SameAs(T!CheckedDiv(a, b), r.cdiv) /\ SameAs(T!Div(a, b), r.div) THEN {} ELSE {"div"})
+          \cup (IF T!EqI(a, b) = r.eq /\ T!CmpI(a, b) = r.cmp THEN {} ELSE {"cmp"})
+          \cup (IF T!Invert(a).neg = r.nega.neg /\ T!IsNegative(a) = r.ida.isneg THEN {} ELSE {"neg"})
+
+----------------------------------------------------------------------------
 (* table validation as a (single-path) behaviour: one row per step *)
 Rows == ndJsonDeserialize(IOEnv.TRACE)
 VARIABLES i, hits
@@ -104,7 +125,8 @@ TNext ==
   /\ LET r == Rows[i + 1]
          bad == JudgeRow(r)
      IN /\ \A t \in bad : PrintT(<<"VIOL", i + 1, "sint", i + 1, t, ToJson([a |-> r.a, b |-> r.b])>>)
-        /\ hits' = Bump(hits, Interesting(r) \cup {"rows"})
+        /\ \A d \in TDrift(r) : PrintT(<<"DRIFT", i + 1, "sint", i + 1, d, "transcription">>)
+        /\ hits' = Bump(hits, Interesting(r) \cup {"rows"} \cup (IF Small(r.a) /\ Small(r.b) THEN {"transcription_compared"} ELSE {}))
   /\ (i' = Len(Rows)) => PrintT(<<"HITS", ToJson(hits')>>)
 TSpec == TInit /\ [][TNext]_<<i, hits>>
 TAccepted == TLCGet("stats").diameter = Len(Rows) + 1
